@@ -183,6 +183,8 @@ func evaluateFunctionCall(call *tree.FunctionCall, retriever variable.Retriever,
 	result, err := caller.call(call.FunctionID, evaluatedArgs)
 	if err != nil {
 		return nil, fmt.Errorf("call to function %s failed: %w", call.FunctionID, err)
+	} else if result == nil {
+		return nil, fmt.Errorf("function %s does not return a value", call.FunctionID)
 	}
 	return result, nil
 }
